@@ -22,8 +22,8 @@ type tblW struct {
 	Writer    string `json:"writer"` // "stream" | "skiplist"
 	DataComp  int    `json:"dc"`
 	IndexComp int    `json:"ic"`
-	BloomN    uint64 `json:"bloom"` // 0 = library default
-	WBuf      int    `json:"wbuf"`  // 0 = library default
+	BloomN    uint64 `json:"bloom"`         // 0 = library default
+	WBuf      int    `json:"wbuf"`          // 0 = library default
 	Cmp       string `json:"cmp,omitempty"` // "" = bytes, "fold" = ASCII case-insensitive
 }
 
@@ -31,7 +31,9 @@ type tblW struct {
 // can be equal, as the Comparator contract allows.
 type foldComparator struct{}
 
-func (foldComparator) Compare(a, b []byte) int { return bytes.Compare(bytes.ToLower(a), bytes.ToLower(b)) }
+func (foldComparator) Compare(a, b []byte) int {
+	return bytes.Compare(bytes.ToLower(a), bytes.ToLower(b))
+}
 
 func cmpFor(name string) skiplist.Comparator[[]byte] {
 	if name == "fold" {
